@@ -17,7 +17,7 @@ CONFIGS["C32"] = dict(
     quick=dict(runs=3000, per_proc=200, budget_s=240),
     thorough=dict(runs=200000, per_proc=2000, budget_s=1500),
     det_seeds=24,
-    rule="tables: the real one (1 case in 5) or 2-8 generated patterns over {a,b,c,tables,{{x}},{{y}},{{z}}} with optional "
+    rule="patterns include trailing slashes, /* tails and the glob variable {{name...}} (instantiated with 1-3 segments); tables: the real one (1 case in 5) or 2-8 generated patterns over {a,b,c,tables,{{x}},{{y}},{{z}}} with optional "
          "trailing slash / glob tail / root, methods GET/POST/any; 12-23 requests per table derived from the patterns "
          "(instantiate, perturb a segment, add/remove trailing slash, empty segment, extra segment, other method); "
          "non-trivial = >=1 request; distinct = distinct (table, request list, results) hash",
